@@ -186,6 +186,7 @@ class MembershipProtocol(Entity):
                 event_type="MembershipPing",
                 payload={
                     "from": self.name,
+                    "from_entity": self,
                     "incarnation": self._incarnation,
                     "updates": self._drain_updates(),
                 },
@@ -230,6 +231,14 @@ class MembershipProtocol(Entity):
         if sender is None:
             return []
 
+        # The ack goes back to the sender. A sender that is not (yet) in our
+        # member table is answered through the entity reference carried by its
+        # ping; otherwise its probe goes unanswered and it declares us dead.
+        if sender in self._members:
+            reply_to = self._members[sender].entity
+        else:
+            reply_to = metadata.get("from_entity", event.target)
+
         # Record heartbeat for sender
         if sender in self._members:
             self._members[sender].detector.heartbeat(self.now.to_seconds())
@@ -239,7 +248,7 @@ class MembershipProtocol(Entity):
         # Send ack back
         ack = self._network.send(
             source=self,
-            destination=self._members[sender].entity if sender in self._members else event.target,
+            destination=reply_to,
             event_type="MembershipAck",
             payload={
                 "from": self.name,
@@ -301,6 +310,7 @@ class MembershipProtocol(Entity):
                 event_type="MembershipPing",
                 payload={
                     "from": self.name,
+                    "from_entity": self,
                     "indirect_for": target_name,
                     "incarnation": self._incarnation,
                     "updates": self._drain_updates(),
